@@ -12,6 +12,8 @@
 //!         parses the subtable bytes and applies it at idx through the real Apply impl;
 //!         infos = gid:glyph_props:lig_props,...; the <model...> tokens are for the Lean side only
 //!         -> ok <applied 0|1> <idx'> <has 0|1> <pos...>
+//!   gp subd <ppem_x> <ppem_y> <kind> <hex> <props> <dir> <idx> <infos> <model...> | <pos...>
+//!         the same on a face whose pixels-per-em are set (Device tables of value records become active)
 //!   gp plan <fontid> <dir>                                 GPOS lookups of the plan (DFLT script, no user features)
 //!         -> ok <idx:mask:auto_zwnj:auto_zwj:per_syllable,...|->
 //!   gp pos <fontid> <dir> <finish 0|1> <infos> FONT <ints…> MAPS <ints…> | <pos...>
@@ -292,6 +294,51 @@ pub fn handle(toks: &[&str], st: &mut crate::State) -> Option<String> {
                     None => "unparsed".to_string(),
                 }
             })
+        }
+        ("gp", "subd") => {
+            let ppx: u16 = toks.get(2)?.parse().ok()?;
+            let ppy: u16 = toks.get(3)?.parse().ok()?;
+            let kind: u16 = toks.get(4)?.parse().ok()?;
+            let data = hex_bytes(toks.get(5)?)?;
+            let props: u32 = toks.get(6)?.parse().ok()?;
+            let d = dir(toks.get(7)?)?;
+            let idx: usize = toks.get(8)?.parse().ok()?;
+            let infos: Option<Vec<(u32, u16, u8)>> = toks
+                .get(9)?
+                .split(',')
+                .map(|t| {
+                    let v: Vec<&str> = t.split(':').collect();
+                    if v.len() != 3 {
+                        return None;
+                    }
+                    Some((v[0].parse().ok()?, v[1].parse().ok()?, v[2].parse().ok()?))
+                })
+                .collect();
+            let infos = infos?;
+            let (_, ptoks) = split_bar(&toks[10..])?;
+            let p = pos(ptoks)?;
+            let head = head();
+            let mut hhea = vec![0u8; 36];
+            hhea[1] = 1;
+            hhea[35] = 1;
+            let maxp = [0u8, 0, 0x50, 0, 0xFF, 0xFF];
+            let raw = ttf_parser::RawFaceTables {
+                head: &head,
+                hhea: &hhea,
+                maxp: &maxp,
+                ..Default::default()
+            };
+            let tf = ttf_parser::Face::from_raw_tables(raw).ok()?;
+            let mut face = Face::from_face(tf);
+            face.set_pixels_per_em(Some((ppx, ppy)));
+            Some(
+                match g::apply_subtable(&face, kind, &data, props, d, &infos, &p, idx) {
+                    Some((applied, idx2, ps, has)) => {
+                        format!("ok {} {} {} {}", applied as u8, idx2, has as u8, fmt_pos(&ps))
+                    }
+                    None => "unparsed".to_string(),
+                },
+            )
         }
         ("kern", "mk") => {
             let d = dir(toks.get(2)?)?;
